@@ -369,6 +369,10 @@ func (p *Parser) resolveDeltas(ofsDeltas, refDeltas []*ObjectHeader) error {
 		if err := p.processDelta(d); err != nil {
 			return fmt.Errorf("processing ref-delta at offset %v: %w", d.Offset, err)
 		}
+		// deltas chained on a thin (externally based) delta
+		if err := visit(d); err != nil {
+			return err
+		}
 	}
 
 	for _, d := range ofsDeltas {
